@@ -23,6 +23,10 @@ CLAIMED = {
    text="Geometry.tla gives every domain expression its denotation In(e, Q) in exact integer arithmetic on homogeneous lattice points (union=or, cut=and-not, product=conjunction, translate/rotate=inverse image, parameter-dependent shapes evaluated with each point's own parameter row); TLC generates the expressions (all of depth<=1 plus random deeper ones), the real _contains is queried on lattice points and TLC compares every bit that is not within tolerance of the boundary; boundary objects must accept their own boundary samples and reject far points.",
    note="Trusted: TLC, the builder vh/universe.py (AST -> Domain). Bounded universe: shape data quarter-integers in [-3,3]^d, six rational rotations, parameters in {0,1,2}, depth <= 3 (quick) / 4, at most one non-axis rotation per path; points within 2/256 of the boundary are not judged. ShapelyPolygon / TrimeshPolyhedron are not in the universe.",
    technique="TLA+ denotational oracle evaluated by TLC on recorded membership bits (trace validation) of TLC-generated expressions", ref="5 C05"),
+ "C01": dict(
+   text="Every row returned by the sampling methods of TLC-generated domain expressions (interior and boundary; domain-level random/grid with n and density; RandomUniform/Grid/Gaussian/LHS/adaptive/filtered samplers; parameter batches) is recorded with the parameter row it is paired with and TLC checks it against the denotation of Geometry.tla (closed set resp. topological boundary up to 2/256, filter satisfied); calls run under a watchdog, a hang or an exception on a positive-measure expression is a violation.",
+   note="Trusted: TLC, vh/universe.py. Same bounded universe as C05; positive measure is decided by TLC on a 15x15 lattice (>= 5% of the window), expressions below that are not judged. Known findings: translate_bbox_per_row, bool_bd_shared_piece, bool_bd_empty_operand.",
+   technique="TLC trace validation of recorded samples against the TLA+ denotation; expressions generated by TLC", ref="5 C01"),
 }
 PENDING_REASON = "check not built yet in this round (design in DESIGN.md section 5); not claimed"
 
